@@ -71,7 +71,7 @@ func members(s rel.Set, attr string) ([][2]string, bool) {
 }
 
 // layout of a value: kind (Go type), offset, cells (null = hole), Count()
-func layout(v rel.Value) map[string]any {
+func layoutSeq(v rel.Value) map[string]any {
 	out := map[string]any{"type": fmt.Sprintf("%T", v)}
 	switch x := v.(type) {
 	case rel.Array:
@@ -187,7 +187,7 @@ func init() {
 					return nil, err
 				}
 			}
-			return map[string]any{"in": layout(seq)}, nil
+			return map[string]any{"in": layoutSeq(seq)}, nil
 		})
 		switch {
 		case to:
@@ -216,9 +216,9 @@ func init() {
 		r, to := seqGuarded(budget, func() (map[string]any, error) {
 			switch op {
 			case "with":
-				return map[string]any{"out": layout(set.With(arg))}, nil
+				return map[string]any{"out": layoutSeq(set.With(arg))}, nil
 			case "without":
-				return map[string]any{"out": layout(set.Without(arg))}, nil
+				return map[string]any{"out": layoutSeq(set.Without(arg))}, nil
 			case "has":
 				return map[string]any{"bool": set.Has(arg)}, nil
 			case "call":
@@ -248,7 +248,7 @@ func init() {
 				if err != nil {
 					return nil, err
 				}
-				return map[string]any{"out": layout(v)}, nil
+				return map[string]any{"out": layoutSeq(v)}, nil
 			case "where":
 				v, err := set.Where(func(m rel.Value) (bool, error) {
 					t, ok := m.(rel.Tuple)
@@ -265,7 +265,7 @@ func init() {
 				if err != nil {
 					return nil, err
 				}
-				return map[string]any{"out": layout(v)}, nil
+				return map[string]any{"out": layoutSeq(v)}, nil
 			case "concat":
 				b, ok := arg.(rel.Set)
 				if !ok {
@@ -275,7 +275,7 @@ func init() {
 				if err != nil {
 					return nil, err
 				}
-				return map[string]any{"out": layout(v), "arg_in": layout(arg)}, nil
+				return map[string]any{"out": layoutSeq(v), "arg_in": layoutSeq(arg)}, nil
 			}
 			return nil, fmt.Errorf("unknown op %s", op)
 		})
@@ -299,7 +299,7 @@ func init() {
 			if _, has := out["arg_in"]; !has {
 				func() {
 					defer func() { _ = recover() }()
-					out["arg_in"] = layout(arg)
+					out["arg_in"] = layoutSeq(arg)
 				}()
 			}
 		}
